@@ -139,9 +139,158 @@ def job(family, shape, gemini, batch_size, max_iter, perms, mlcl=False):
     return res
 
 
+def job_path(family, shape, batch_size, y_given, max_paths=40):
+    """the regularisation path: its own training loop and the validation-score blocks of compute_val_score"""
+    loader.install()
+    res = {"paths": 0, "queries": 0, "obligations": [], "violations": [], "validated": 0, "witnesses": 0, "samples": []}
+    dm = cm.dims(family, shape)
+    n = dm["n"]
+    box = {}
+
+    def setup():
+        core.CTX.merge_sign = True
+        env = cm.PathEnv(family, shape, gemini="mmd_ova", batch_size=batch_size, max_iter=1, gemini_stub=True, y_given=y_given,
+                         hyper=({"gemini": None} if False else None))
+        if y_given:
+            gm = loader.load("gemini")
+            env.mdl.gemini = gm.MMDGEMINI(kernel="precomputed")
+        box["env"] = env
+        return env
+
+    ex = Explorer(max_paths=max_paths)
+    tagbase = f"path/{family}/{cm.shape_str(shape)}/bs{batch_size}/{'precomputed' if y_given else 'computed'}"
+    seen = set()
+    done_sigs = set()
+    for out, pc, trace in ex.run(lambda env: env.run_path(), setup):
+        res["paths"] += 1
+        if isinstance(out, PathError):
+            res["obligations"].append({"name": tagbase + "/path-error", "verdict": "inconclusive", "how": repr(out)[:300]})
+            continue
+        env = out
+        A_full = env.y if y_given else None
+        if A_full is None:
+            for rec in getattr(env, "affinity_log", []):
+                if rec["Y"] is None and len(rec["X"]) == n:
+                    A_full = rec["value"]
+        same = lambda a, b: to_rat(a).key() == to_rat(b).key()
+        # training steps: fit epoch + path epochs
+        tr = [{"rows": s_["rows"], "affinity": (s_["gem"]["affinity"] if s_["gem"] is not None else None), "indices": None} for s_ in env.steps]
+        checks = [(f"training (fit + {env.outer} path step): " + nm, ok, sig, what) for nm, ok, sig, what in check_trace(tr, n, batch_size, 1 + env.outer, False, A_full, same)]
+        # validation blocks: sequential blocks of batch_size rows covering the data once per evaluation; affinity block aligned
+        bs = batch_size or n
+        blocks = [list(range(j, min(j + bs, n))) for j in range(0, n, bs)]
+        vals = [v["rows"] for v in env.val_calls]
+        okv = len(vals) % len(blocks) == 0 and all(vals[i] == blocks[i % len(blocks)] for i in range(len(vals))) and len(vals) > 0
+        checks.append(("validation score: sequential blocks of batch_size rows, each sample once per evaluation", okv, f"{PROP}:validation-blocks", "compute_val_score does not visit the data in sequential blocks covering every sample once"))
+        vcalls = [c for c in env.gem_calls if not c["return_grad"]]
+        if y_given and okv:
+            oka = len(vcalls) == len(vals)
+            for c, rows in zip(vcalls, vals):
+                Ab = c["affinity"]
+                oka = oka and Ab is not None and np.shape(Ab) == (len(rows), len(rows)) and all(same(Ab[a][b], A_full[ra, rb]) for a, ra in enumerate(rows) for b, rb in enumerate(rows))
+            checks.append(("validation score: the affinity block is y[block][:, block]", oka, f"{PROP}:validation-affinity", "compute_val_score slices the precomputed affinity wrongly"))
+        key = tuple((nm, ok) for nm, ok, _, _ in checks)
+        if key in done_sigs:
+            continue        # the remaining paths differ only in proximal / early-stopping branches
+        done_sigs.add(key)
+        for nm, ok, sig, what in checks:
+            res["obligations"].append({"name": f"{tagbase}/{nm}", "verdict": "unsat" if ok else "sat", "how": "term-identity"})
+            if not ok and sig not in seen:
+                rep = {"kind": "path", "family": family, "shape": list(shape), "batch_size": batch_size, "y_given": y_given, "expect": sig}
+                got = replay(rep)
+                if got and sig in got:
+                    seen.add(sig)
+                    res["violations"].append({"signature": sig, "what": f"{family}.path (batch_size={batch_size}, {'precomputed' if y_given else 'computed'} affinity): {what}", "replay": rep})
+                else:
+                    res["obligations"][-1]["verdict"] = "inconclusive"
+        if len(res["samples"]) < 1:
+            res["samples"].append({"config": tagbase, "training_batches": [t["rows"] for t in tr], "validation_blocks": vals[:6]})
+    return res
+
+
+def _replay_path(rep, verbose=False):
+    """REAL path() on tagged data with a precomputed tagged affinity; spies on _infer / predict_proba / GEMINI"""
+    family, shape = rep["family"], tuple(rep["shape"])
+    dm = cm.dims(family, shape)
+    n, Kc, d = max(dm["n"], 5), dm["K"], max(dm["d"], 3)
+    cls, mod = cm.get_class(family, symbolic=False)
+    gem_mod = loader.real("gemini")
+    sigs = set()
+    bs = rep["batch_size"]
+    for seed in range(6):
+        X = np.arange(n, dtype=float).reshape(-1, 1) * np.ones((1, d)) + np.arange(d) * 0.001
+        A = np.array([[100.0 * min(i, j) + max(i, j) + 0.5 for j in range(n)] for i in range(n)])
+        kw = dict(n_clusters=Kc, max_iter=2, batch_size=bs, random_state=seed, alpha=0.5, gemini=gem_mod.MMDGEMINI(kernel="precomputed"))
+        if cm.BASE[family] == "smlp":
+            kw["n_hidden_dim"] = 2
+        mdl = cls(**kw)
+        train, vals = [], []
+        state = {"last": None}
+        inner_infer = mdl._infer
+        inner_pp = mdl.predict_proba
+
+        def rows_of(Xb):
+            return [int(round(r[0])) for r in np.asarray(Xb)]
+
+        def infer(Xb, retain=True):
+            if retain:
+                state["last"] = ("train", rows_of(Xb))
+            return inner_infer(Xb, retain)
+
+        def pp(Xb):
+            state["last"] = ("val", rows_of(Xb))
+            return inner_pp(Xb)
+        mdl._infer, mdl.predict_proba = infer, pp
+        inner_get = mdl.get_gemini
+
+        class Spy:
+            def __init__(self, g):
+                self.g = g
+
+            def __call__(self, yp, aff, return_grad=False):
+                kind, rows = state["last"]
+                (train if return_grad else vals).append({"rows": rows, "affinity": None if aff is None else np.array(aff, copy=True), "indices": None})
+                return self.g(yp, aff, return_grad)
+
+            def compute_affinity(self, X, y=None):
+                return self.g.compute_affinity(X, y)
+        mdl.get_gemini = lambda: Spy(inner_get())
+        import warnings
+        try:
+            with warnings.catch_warnings():
+                warnings.simplefilter("ignore")
+                mdl.path(X, A, min_features=d - 1, alpha_multiplier=50.0, max_patience=1)
+        except Exception as e:
+            if verbose:
+                print("path raised", type(e).__name__, e)
+            sigs.add(f"{PROP}:fit-raises")
+            continue
+        same = lambda a, b: abs(float(a) - float(b)) < 1e-12
+        per = -(-n // (bs or n))
+        epochs = len(train) // per if per else 0
+        for nm, ok, sig, what in check_trace(train, n, bs, max(epochs, 1), False, A, same):
+            if not ok and "step-count" not in sig:
+                sigs.add(sig)
+                if verbose:
+                    print(f"seed {seed}: training {nm} FAILS")
+        b = bs or n
+        blocks = [list(range(j, min(j + b, n))) for j in range(0, n, b)]
+        vr = [v["rows"] for v in vals]
+        if not (len(vr) % len(blocks) == 0 and all(vr[i] == blocks[i % len(blocks)] for i in range(len(vr)))):
+            sigs.add(f"{PROP}:validation-blocks")
+        else:
+            for v in vals:
+                rows = v["rows"]
+                if v["affinity"] is None or v["affinity"].shape != (len(rows), len(rows)) or not np.allclose(v["affinity"], A[np.ix_(rows, rows)]):
+                    sigs.add(f"{PROP}:validation-affinity")
+    return sigs
+
+
 def replay(rep, verbose=False):
     """REAL fit on tagged concrete data (row i carries the value i, affinity entry (i,j) carries 100*i+j+0.5), over many seeds;
     returns the set of violation signatures observed."""
+    if rep.get("kind") == "path":
+        return _replay_path(rep, verbose)
     family, shape = rep["family"], tuple(rep["shape"])
     dm = cm.dims(family, shape)
     n, Kc = dm["n"], dm["K"]
@@ -260,6 +409,10 @@ def jobs(tier):
             configs.append(("LinearModel", (4, 1, 2), "mmd_ova", bs, 1, True))
         configs += [("SparseLinearModel", (3, 1, 2), "mmd_ova", 2, 1, False), ("Douglas", (3, 1, 1, 2), "wasserstein_ova", 2, 1, False),
                     ("RIM", (3, 1, 2), "mi", 2, 2, False)]
+    for fam, sh, bs, yg in [("SparseLinearModel", (3, 1, 2), 2, True), ("SparseLinearModel", (3, 1, 2), None, True), ("SparseLinearModel", (3, 1, 2), 2, False),
+                            ("SparseMLPModel", (3, 1, 1, 2), 2, True)] + ([] if q else [("SparseLinearModel", (4, 1, 2), 3, True), ("SparseLinearModel", (3, 2, 2), 1, True), ("SparseMLPModel", (3, 1, 1, 2), None, False)]):
+        out.append({"name": f"path/{fam}/{cm.shape_str(sh)}/bs{bs}/{'precomputed' if yg else 'computed'}", "target": "checks.c10:job_path",
+                    "kwargs": dict(family=fam, shape=sh, batch_size=bs, y_given=yg), "timeout": 280 if q else 1800})
     for fam, sh, gem, bs, it, ml in configs:
         n = cm.dims(fam, sh)["n"]
         out.append({"name": f"{fam}/{cm.shape_str(sh)}/{gem}/bs{bs}/it{it}{'/mlcl' if ml else ''}", "target": "checks.c10:job",
